@@ -15,7 +15,8 @@ Record ystate := mkY {
   y_pc : Z;            (* mu_pc *)
   y_s : list Z;        (* mu_s, head = mu_s[0] *)
   y_m : Z -> Z;        (* mu_m, a byte at every address; all zero initially *)
-  y_i : Z              (* mu_i, number of active 32-byte words *)
+  y_i : Z;             (* mu_i, number of active 32-byte words *)
+  y_o : list Z         (* mu_o, output of the last call; empty before the first call *)
 }.
 
 Inductive yres :=
@@ -92,6 +93,8 @@ Definition delta_alpha (w : Z) : option (Z * Z) :=
       else if (96 <=? w) && (w <=? 127) then Some (0, 1)                  (* PUSHn *)
       else if (128 <=? w) && (w <=? 143) then Some (w - 127, w - 127 + 1) (* DUPn *)
       else if (144 <=? w) && (w <=? 159) then Some (w - 143 + 1, w - 143 + 1)     (* SWAPn *)
+      else if w =? 241 then Some (7, 1)                                   (* CALL *)
+      else if w =? 250 then Some (6, 1)                                   (* STATICCALL *)
       else if (w =? 243) || (w =? 253) then Some (2, 0)                   (* RETURN REVERT *)
       else None
     end
@@ -122,10 +125,21 @@ Section YP.
     end.
   Definition in_D (d : Z) : bool := DJ (length Ib) 0 d.
 
+  (* message call to the identity precompile (address 4, appendix E: output = input), no value, assumed to have been
+     given enough gas: mu_o := the input, the first min(outsize, |o|) bytes of it go to the output area, both ranges
+     count for mu_i, 1 is pushed.  Any other callee is outside the machine. *)
+  Definition ycall (to ioff isz roff rsz : Z) (rest : list Z) (y : ystate) (w : Z) : yres :=
+    let m := y_m y in
+    if negb (to mod 2 ^ 160 =? 4) then YOutside w
+    else
+      let o := mread m ioff isz in
+      let m' := mwrite m roff (Z.min rsz isz) (fun k => m (ioff + k)) in
+      YNext (mkY (y_pc y + 1) (1 :: rest) m' (Mx (Mx (y_i y) ioff isz) roff rsz) o).
+
   Definition sem (w : Z) (y : ystate) : yres :=
-    let s := y_s y in let pc := y_pc y in let m := y_m y in let i := y_i y in
+    let s := y_s y in let pc := y_pc y in let m := y_m y in let i := y_i y in let o := y_o y in
     let s0 := nth 0 s 0 in let s1 := nth 1 s 0 in let s2 := nth 2 s 0 in
-    let cont stk := YNext (mkY (pc + 1) stk m i) in
+    let cont stk := YNext (mkY (pc + 1) stk m i o) in
     match arith_of w with
     | Some (o, a) =>
         if a =? 1 then cont (wop o s0 0 0 :: skipn 1 s)
@@ -136,32 +150,37 @@ Section YP.
     | Some k => cont (env_get E k :: s)
     | None =>
       if w =? 0 then YStop
-      else if w =? 32 then YNext (mkY (pc + 1) (hash (mread m s0 s1) :: skipn 2 s) m (Mx i s0 s1))
+      else if w =? 32 then YNext (mkY (pc + 1) (hash (mread m s0 s1) :: skipn 2 s) m (Mx i s0 s1) o)
       else if w =? 53 then cont (bigend (mread (byte_at Id) s0 32) :: skipn 1 s)
       else if w =? 54 then cont (len Id :: s)
-      else if w =? 55 then YNext (mkY (pc + 1) (skipn 3 s) (mwrite m s0 s2 (fun k => byte_at Id (s1 + k))) (Mx i s0 s2))
+      else if w =? 55 then YNext (mkY (pc + 1) (skipn 3 s) (mwrite m s0 s2 (fun k => byte_at Id (s1 + k))) (Mx i s0 s2) o)
       else if w =? 56 then cont (len Ib :: s)
-      else if w =? 57 then YNext (mkY (pc + 1) (skipn 3 s) (mwrite m s0 s2 (fun k => byte_at Ib (s1 + k))) (Mx i s0 s2))
-      else if w =? 61 then cont (0 :: s)                                   (* |mu_o| = 0: no call has been made *)
-      else if w =? 62 then if 0 <? s1 + s2 then YExc                       (* mu_s[1] + mu_s[2] > |mu_o| *)
-                           else YNext (mkY (pc + 1) (skipn 3 s) m (Mx i s0 s2))
+      else if w =? 57 then YNext (mkY (pc + 1) (skipn 3 s) (mwrite m s0 s2 (fun k => byte_at Ib (s1 + k))) (Mx i s0 s2) o)
+      else if w =? 61 then cont (len o :: s)                               (* |mu_o| *)
+      else if w =? 62 then if len o <? s1 + s2 then YExc                   (* mu_s[1] + mu_s[2] > |mu_o| *)
+                           else YNext (mkY (pc + 1) (skipn 3 s) (mwrite m s0 s2 (fun k => byte_at o (s1 + k))) (Mx i s0 s2) o)
       else if w =? 80 then cont (skipn 1 s)
-      else if w =? 81 then YNext (mkY (pc + 1) (bigend (mread m s0 32) :: skipn 1 s) m (Z.max i (ceil32 (s0 + 32))))
-      else if w =? 82 then YNext (mkY (pc + 1) (skipn 2 s) (mwrite m s0 32 (word_byte s1)) (Z.max i (ceil32 (s0 + 32))))
-      else if w =? 83 then YNext (mkY (pc + 1) (skipn 2 s) (mwrite m s0 1 (fun _ => s1 mod 256)) (Z.max i (ceil32 (s0 + 1))))
-      else if w =? 86 then if in_D s0 then YNext (mkY s0 (skipn 1 s) m i) else YExc
-      else if w =? 87 then if s1 =? 0 then YNext (mkY (pc + 1) (skipn 2 s) m i)
-                           else if in_D s0 then YNext (mkY s0 (skipn 2 s) m i) else YExc
+      else if w =? 81 then YNext (mkY (pc + 1) (bigend (mread m s0 32) :: skipn 1 s) m (Z.max i (ceil32 (s0 + 32))) o)
+      else if w =? 82 then YNext (mkY (pc + 1) (skipn 2 s) (mwrite m s0 32 (word_byte s1)) (Z.max i (ceil32 (s0 + 32))) o)
+      else if w =? 83 then YNext (mkY (pc + 1) (skipn 2 s) (mwrite m s0 1 (fun _ => s1 mod 256)) (Z.max i (ceil32 (s0 + 1))) o)
+      else if w =? 86 then if in_D s0 then YNext (mkY s0 (skipn 1 s) m i o) else YExc
+      else if w =? 87 then if s1 =? 0 then YNext (mkY (pc + 1) (skipn 2 s) m i o)
+                           else if in_D s0 then YNext (mkY s0 (skipn 2 s) m i o) else YExc
       else if w =? 88 then cont (pc :: s)
       else if w =? 89 then cont (32 * i :: s)
       else if w =? 91 then cont s
-      else if w =? 94 then YNext (mkY (pc + 1) (skipn 3 s) (mwrite m s0 s2 (fun k => m (s1 + k))) (Mx i (Z.max s0 s1) s2))
+      else if w =? 94 then YNext (mkY (pc + 1) (skipn 3 s) (mwrite m s0 s2 (fun k => m (s1 + k))) (Mx i (Z.max s0 s1) s2) o)
       else if w =? 95 then cont (0 :: s)
       else if (96 <=? w) && (w <=? 127) then
         let n := w - 95 in
-        YNext (mkY (pc + n + 1) (bigend (mread (byte_at Ib) (pc + 1) n) :: s) m i)
+        YNext (mkY (pc + n + 1) (bigend (mread (byte_at Ib) (pc + 1) n) :: s) m i o)
       else if (128 <=? w) && (w <=? 143) then cont (nth (Z.to_nat (w - 128)) s 0 :: s)
       else if (144 <=? w) && (w <=? 159) then cont (yswap s (w - 143))
+      else if w =? 250 then                                                (* STATICCALL: gas, to, in, insize, out, outsize *)
+        ycall (nth 1 s 0) (nth 2 s 0) (nth 3 s 0) (nth 4 s 0) (nth 5 s 0) (skipn 6 s) y w
+      else if w =? 241 then                                                (* CALL: gas, to, value, in, insize, out, outsize *)
+        if nth 2 s 0 =? 0 then ycall (nth 1 s 0) (nth 3 s 0) (nth 4 s 0) (nth 5 s 0) (nth 6 s 0) (skipn 7 s) y w
+        else YOutside w
       else if w =? 243 then YReturn (mread m s0 s1)
       else if w =? 253 then YRevert (mread m s0 s1)
       else YOutside w
@@ -189,5 +208,5 @@ Section YP.
              end
     end.
 
-  Definition y0 : ystate := mkY 0 [] (fun _ => 0) 0.
+  Definition y0 : ystate := mkY 0 [] (fun _ => 0) 0 [].
 End YP.
